@@ -2,6 +2,8 @@ import Poly.Spec.Quorum
 import Poly.Model.Quorum
 import Poly.Generated.Thresholds
 import Mathlib.Data.Finset.Card
+import Mathlib.Data.Finset.Dedup
+import Poly.Props.C14
 
 /-!
 # C42 — Quorum thresholds guarantee intersection
@@ -216,6 +218,52 @@ theorem vbft_commit_signers_overlap {α : Type} [DecidableEq α] (V A B : Finset
   have hb' := (impl_vbft_commit B.card V.card).mp hb
   unfold thrA at ha' hb'; unfold f
   omega
+
+/-! ## Bridge to C14: two headers accepted by the ledger model under the modern rule share more than f signers -/
+
+/-- Two non-genesis headers that `verifyHeader` (the C14 model of `LedgerStoreImp.verifyHeader`, threshold built from
+the generated expressions) accepts against the same duplicate-free validator set, on main net above header height
+20 000 000, are each signed by validators of that set, and more than f validators signed both: a common sub-list `S`
+of distinct members of the set, every one with a verifying listed signature in each header. -/
+theorem ledger_accepted_headers_share_signers (p : Poly.Model.Ledger.Params) (s₁ s₂ : Poly.Model.Ledger.State)
+    (h₁ h₂ : Poly.Model.Ledger.Header) (set set₁ set₂ : List Poly.Model.Ledger.Key) (hset : set.Nodup) (hne : 1 ≤ set.length)
+    (hmain : p.netId = 1)
+    (hh₁ : 20000000 < Poly.Model.Ledger.headerHeight s₁.mem) (hh₂ : 20000000 < Poly.Model.Ledger.headerHeight s₂.mem)
+    (h01 : h₁.height ≠ 0) (h02 : h₂.height ≠ 0)
+    (a₁ : Poly.Model.Ledger.verifyHeader p s₁ h₁ set = .ok set₁)
+    (a₂ : Poly.Model.Ledger.verifyHeader p s₂ h₂ set = .ok set₂) :
+    ∃ S : Finset Nat, f set.length < S.card ∧ ∀ k ∈ S, k ∈ set ∧
+      (∃ sig ∈ h₁.sigs, p.verify k h₁.hash sig = true) ∧ (∃ sig ∈ h₂.sigs, p.verify k h₂.hash sig = true) := by
+  obtain ⟨S₁, n₁, m₁, t₁⟩ := Poly.Props.C14.accept_needs_quorum p s₁ h₁ set set₁ h01 a₁
+  obtain ⟨S₂, n₂, m₂, t₂⟩ := Poly.Props.C14.accept_needs_quorum p s₂ h₂ set set₂ h02 a₂
+  rw [Poly.Props.C14.m_formula] at t₁ t₂
+  have c₁ : ¬ (p.netId ≠ 1 ∨ Poly.Model.Ledger.headerHeight s₁.mem ≤ 20000000) := by
+    intro h; rcases h with h | h
+    · exact h hmain
+    · omega
+  have c₂ : ¬ (p.netId ≠ 1 ∨ Poly.Model.Ledger.headerHeight s₂.mem ≤ 20000000) := by
+    intro h; rcases h with h | h
+    · exact h hmain
+    · omega
+  rw [if_neg c₁] at t₁
+  rw [if_neg c₂] at t₂
+  have hV : set.toFinset.card = set.length := List.toFinset_card_of_nodup hset
+  have hN : 1 ≤ set.toFinset.card := by
+    rw [hV]; exact hne
+  have hA : S₁.toFinset ⊆ set.toFinset := fun k hk => List.mem_toFinset.mpr (m₁ k (List.mem_toFinset.mp hk)).1
+  have hB : S₂.toFinset ⊆ set.toFinset := fun k hk => List.mem_toFinset.mpr (m₂ k (List.mem_toFinset.mp hk)).1
+  have ca : thrA set.toFinset.card ≤ S₁.toFinset.card := by
+    rw [List.toFinset_card_of_nodup n₁, hV]; unfold thrA; omega
+  have cb : thrA set.toFinset.card ≤ S₂.toFinset.card := by
+    rw [List.toFinset_card_of_nodup n₂, hV]; unfold thrA; omega
+  have hi := intersect_A set.toFinset S₁.toFinset S₂.toFinset hA hB hN ca cb
+  rw [hV] at hi
+  refine ⟨S₁.toFinset ∩ S₂.toFinset, hi, ?_⟩
+  intro k hk
+  obtain ⟨k1, k2⟩ := Finset.mem_inter.mp hk
+  have e1 := m₁ k (List.mem_toFinset.mp k1)
+  have e2 := m₂ k (List.mem_toFinset.mp k2)
+  exact ⟨e1.1, e1.2.2, e2.2.2⟩
 
 /-! ## Behaviour: a ledger fed by distinct validators fires exactly at the threshold
 
